@@ -82,9 +82,9 @@ CHECKS = {
          "trailing nines, all-nines overflow, removed-digit count - returns exactly the declarative rounding Spec.roundNat of C06/C07); C16_display_precision (for every storable decimal, every N and "
          "every configuration the text of {:.N} is read back by the model of the real parser as exactly d.with_scale_round(N, mode): those digits, scale N, hence exactly N digits after the point, "
          "zero-padded when fewer exist - or, when the integer padding would exceed the limit, the exponent-keeping text denotes d exactly); C16_exp_precision ({:.Ne}/{:.NE} read back with the value "
-         "of the decimal rounded to N+1 significant digits); C16_flags_only_pad (for every combination of width, fill, alignment, 0 and + the text is the unflagged numeral preceded by the sign and "
+         "of the decimal rounded to N+1 significant digits); C16_exp_digit_count (that text is: sign, one digit, then for N > 0 a point and EXACTLY N digits - the rounded digits, or the number's own digits padded with zeros - then the exponent marker and a signed exponent); C16_flags_only_pad (for every combination of width, fill, alignment, 0 and + the text is the unflagged numeral preceded by the sign and "
          "surrounded only by fill characters or zeros). The correspondence checks every flag combination text-exactly against the real Formatter::pad_integral.",
-         "PARTIAL only in that the pad_integral MODEL (std's formatter) and the digit COUNT of the {:.Ne} mantissa are tied to the code by the text-exact correspondence rather than by a theorem. "
+         "PARTIAL only in that the pad_integral MODEL (std's formatter) is tied to the code by the text-exact correspondence rather than by a theorem. "
          "Trusted: Lean kernel, extractor (round_pair, needs_trailing_zeros), harness/driver, pad_integral model.",
          "Lean 4 proof ({:.N} = with_scale_round and {:.Ne} = precision rounding through the character-level formatter, for all inputs) + text-exact correspondence", "DESIGN.md §5 C16"),
  "C17": ("Lean model of the serde glue: Serialize = the Display model of C04, Deserialize of strings and of arbitrary-precision JSON numbers = the parser model of C05 on the literal text (digit for "
